@@ -146,3 +146,13 @@ Example C01_model_example :
 Proof. exact (conj ex2_side (conj ex2_valid (conj ex2_reordered ex2_subset))). Qed.
 
 Print Assumptions C01_agreement_for_the_model.
+
+(* the same for validator lists in any order (side conditions: LinkRaw.link_side_raw) *)
+From LV Require Import proofs.LinkRaw.
+Theorem C01_agreement_for_the_model_any_order : forall cap lam,
+  forall vals D1 D2, link_side_raw vals D2 -> valid_run vals D2 -> incl D1 D2 -> NoDup (ids_of D1) -> parents_first D1 ->
+    codes_ok (fst (abft_run cap lam vals D1)) /\
+    prefix (snd (abft_run cap lam vals D1)) (snd (abft_run cap lam vals D2)) /\
+    (incl D2 D1 -> snd (abft_run cap lam vals D1) = snd (abft_run cap lam vals D2)).
+Proof. exact link_C01_raw. Qed.
+Print Assumptions C01_agreement_for_the_model_any_order.
